@@ -251,6 +251,7 @@ theorem fromRadixLSF_digits (b : Nat) (hb2 : 2 ≤ b) (hb64 : b ≤ 64) :
       have hd : n % b < 64 := by have := Nat.mod_lt n (show 0 < b by omega); omega
       rw [radixVal_table _ hd]
       simp only
+      rw [if_neg (by have := Nat.mod_lt n (show 0 < b by omega); omega)]
       rw [ih (n / b) (pow * b) (ans + pow * (n % b)) hlt]
       congr 1
       rw [Nat.add_assoc, Nat.mul_assoc, ← Nat.mul_add, Nat.mod_add_div]
@@ -262,6 +263,14 @@ theorem fromRadixLSF_digits (b : Nat) (hb2 : 2 ≤ b) (hb64 : b ≤ 64) :
 theorem reverse_drop_one_reverse {α} (l : List α) : (l.reverse.drop 1).reverse = l.dropLast := by
   rw [List.drop_one, List.tail_reverse, List.reverse_reverse]
 
+theorem radixDigits_dropLast_ne_nil (b fuel n : Nat) (hn : 0 < n) (hf : n < fuel) :
+    (radixDigitsLSF b fuel n).dropLast ≠ [] := by
+  obtain ⟨f, rfl⟩ : ∃ f, fuel = f + 1 := ⟨fuel - 1, by omega⟩
+  unfold radixDigitsLSF
+  simp only [hn, if_true]
+  rw [dropLast_cons_of_ne_nil _ _ (radixDigits_ne_nil b f (n / b) (by omega))]
+  simp
+
 theorem fromRadix_toRadix (b n : Nat) (hb2 : 2 ≤ b) (hb64 : b ≤ 64) :
     ∃ s, toRadix b n = some s ∧ fromRadix b s = some n := by
   unfold toRadix
@@ -270,11 +279,18 @@ theorem fromRadix_toRadix (b n : Nat) (hb2 : 2 ≤ b) (hb64 : b ≤ 64) :
   by_cases hn : n = 0
   · subst hn
     refine ⟨['0'], by simp [h1], ?_⟩
-    simp [fromRadix, fromRadixLSF]
-    decide
+    have h0 : radixVal '0' = some 0 := by decide
+    simp [fromRadix, fromRadixLSF, h0]
+    omega
   · simp only [h1, hn, if_false, hlen, hb64, if_true]
     refine ⟨_, rfl, ?_⟩
     unfold fromRadix
+    have hne : ((radixDigitsLSF b (n + 1) n).reverse.drop 1) ≠ [] := by
+      intro h
+      have := congrArg List.reverse h
+      rw [reverse_drop_one_reverse] at this
+      exact radixDigits_dropLast_ne_nil b (n + 1) n (by omega) (by omega) (by simpa using this)
+    rw [if_neg (by simp only [List.isEmpty_iff, List.map_eq_nil_iff]; exact hne)]
     rw [← List.map_reverse, reverse_drop_one_reverse]
     have := fromRadixLSF_digits b hb2 hb64 (n + 1) n 1 0 (by omega)
     simpa using this
@@ -360,7 +376,13 @@ theorem toRadix_canonical (b n : Nat) (hb2 : 2 ≤ b) (hb64 : b ≤ 64) :
       refine ⟨d, ?_, rfl⟩
       apply radixDigits_lt b (by omega) (n + 1) n
       exact List.mem_reverse.mp (List.mem_of_mem_drop hd)
-theorem fromRadixLSF_reject (b : Nat) (s : List Char) (h : ∃ c ∈ s, radixVal c = none) :
+/-- a character is a valid digit of base b -/
+def validDigit (b : Nat) (c : Char) : Bool :=
+  match radixVal c with
+  | some d => decide (d < b)
+  | none => false
+
+theorem fromRadixLSF_reject (b : Nat) (s : List Char) (h : ∃ c ∈ s, validDigit b c = false) :
     ∀ pow ans, fromRadixLSF b s pow ans = none := by
   induction s with
   | nil => simp at h
@@ -370,14 +392,52 @@ theorem fromRadixLSF_reject (b : Nat) (s : List Char) (h : ∃ c ∈ s, radixVal
     simp only [List.mem_cons] at hx
     unfold fromRadixLSF
     rcases hx with rfl | hx
-    · simp [hn]
+    · unfold validDigit at hn
+      cases hv : radixVal x with
+      | none => rfl
+      | some d =>
+        simp only [hv, decide_eq_false_iff_not, Nat.not_lt] at hn
+        simp [hn]
     · cases hv : radixVal c with
       | none => rfl
-      | some d => exact ih ⟨x, hx, hn⟩ _ _
+      | some d =>
+        simp only
+        split
+        · rfl
+        · exact ih ⟨x, hx, hn⟩ _ _
 
-theorem fromRadix_reject (b : Nat) (s : List Char) (h : ∃ c ∈ s, radixVal c = none) : fromRadix b s = none := by
+theorem fromRadix_reject (b : Nat) (s : List Char) (h : s = [] ∨ ∃ c ∈ s, validDigit b c = false) :
+    fromRadix b s = none := by
   unfold fromRadix
-  apply fromRadixLSF_reject
-  obtain ⟨c, hc, hn⟩ := h
-  exact ⟨c, List.mem_reverse.mpr hc, hn⟩
+  rcases h with rfl | h
+  · rfl
+  · split
+    · rfl
+    · apply fromRadixLSF_reject
+      obtain ⟨c, hc, hn⟩ := h
+      exact ⟨c, List.mem_reverse.mpr hc, hn⟩
+
+theorem fromRadixLSF_accept (b : Nat) (s : List Char) (h : ∀ c ∈ s, validDigit b c = true) :
+    ∀ pow ans, (fromRadixLSF b s pow ans).isSome = true := by
+  induction s with
+  | nil => intro pow ans; rfl
+  | cons c cs ih =>
+    intro pow ans
+    have hc := h c (List.mem_cons_self ..)
+    unfold validDigit at hc
+    unfold fromRadixLSF
+    cases hv : radixVal c with
+    | none => simp [hv] at hc
+    | some d =>
+      simp only [hv, decide_eq_true_eq] at hc
+      simp only
+      rw [if_neg (by omega)]
+      exact ih (fun x hx => h x (List.mem_cons_of_mem _ hx)) _ _
+
+theorem fromRadix_accept (b : Nat) (s : List Char) (hne : s ≠ []) (h : ∀ c ∈ s, validDigit b c = true) :
+    (fromRadix b s).isSome = true := by
+  unfold fromRadix
+  rw [if_neg (by simpa using hne)]
+  exact fromRadixLSF_accept b s.reverse (fun c hc => h c (List.mem_reverse.mp hc)) 1 0
+
 end Proofs.C14
